@@ -1,6 +1,7 @@
 """C03 — multithreaded BGZF I/O = single-threaded I/O under every schedule (DESIGN.md §5 C03)."""
 import re
 
+from .. import a6
 from .. import cfg as C
 from .. import rules as R
 
@@ -15,7 +16,8 @@ EXPLANATION = (
     "(Receiver::recv, never try_recv/recv_timeout) before it writes/delivers, and the writer thread's only sink writes "
     "are write_frame calls in that loop plus the EOF marker before Ok; (R4) error surfacing: covered by C14.R4 and "
     "re-checked here for the reader thread (read/parse errors travel through the ticket or the join payload); (R5) the "
-    "MT and ST writers share MAX_BUF_SIZE chunking, deflate::encode, write_frame and BGZF_EOF.")
+    "MT and ST writers share MAX_BUF_SIZE chunking, deflate::encode, write_frame and BGZF_EOF."
+    " (R6) the MT writer's public calls are total: no explicit panic in any of its functions — the Done state, which send() enters by itself when the writer thread has failed, is an error exit (genuine defect F9, repaired; the MT reader's identical construct is the matcher's positive control, its Done state is only entered by the caller's own finish()).")
 ASSUMPTIONS = ["crossbeam channels are FIFO and Receiver::recv blocks until a value or disconnect",
                "rayon::spawn runs the closure exactly once",
                "std::thread::JoinHandle::join returns the closure's value"]
@@ -199,6 +201,27 @@ def run(ctx):
     if rw is not None:
         R.must_pass(ctx, "C03.R5", rw.key, r"reader::frame::parse_block$", "inflate worker uses the shared CRC-checking parse_block", fn=rw,
                     exits=C.return_blocks(rw))
+
+    # ---------------------------------------------------------------- R6 terminal state is not a panic trap
+    ctx.rule("C03.R6", "A6 finish()/write()/flush() of the MT writer are total: the Done state, which send() enters by itself when the "
+                       "writer thread has failed, is an error exit and never an explicit panic")
+    mw = sorted(k for k in fb.fns if k.startswith(("noodles_bgzf::io::multithreaded_writer::", "<noodles_bgzf::io::multithreaded_writer::")))
+    mr = sorted(k for k in fb.fns if k.startswith(("noodles_bgzf::io::multithreaded_reader::", "<noodles_bgzf::io::multithreaded_reader::")))
+    k1w = [x for x in a6.sites(fb, mw) if x["kind"] == "K1"]
+    k1r = [x for x in a6.sites(fb, mr) if x["kind"] == "K1"]
+    ctx.count("mt_writer_functions", len(mw))
+    # positive control: the same construct (`panic!("invalid state")`) exists in the MT reader, where Done is only entered by the
+    # caller's own finish(), which hands the source back: use-after-finish is a caller error there (triaged in tables/C15_k1.json)
+    ctx.floor("C03.R6", "explicit panic sites found in the MT reader (positive control of the matcher)", len(k1r), 5)
+    ctx.floor("C03.R6", "MT writer functions inspected", len(mw), 10)
+    if not k1w:
+        ctx.ok("C03.R6", "no explicit panic in %d MT writer functions" % len(mw), "send()/finish_inner() return an error in the Done state")
+    for x in k1w:
+        f = fb.fns[x["fn"]]
+        ctx.violation("C03.R6", "C03.R6/panic-in-terminal-state/%s/%s" % (f.root, x["what"]),
+                      "%s contains an explicit %s!(): after a sink failure has surfaced through write(), send() has already moved the "
+                      "writer to Done by itself, and the caller's finish()/flush()/write() panics instead of returning an error" % (
+                          f.root, x["what"]), f.loc(x["block"]))
 
 
 def _spawned_closure(ctx, rule, parent_key):
